@@ -10,7 +10,7 @@ use crate::util::ToSvgCompat;
 use crate::geom::*;
 use crate::util::{Out, Rng};
 use crate::{Law, Prop};
-use kurbo::{dash, stroke, Arc, Cap, Join, PathEl, Point, Stroke, StrokeOpts, Vec2};
+use kurbo::{dash, stroke, Arc, Cap, CubicBez, Join, ParamCurve, ParamCurveDeriv, ParamCurveNearest, PathEl, Point, Stroke, StrokeOpts, Vec2};
 use std::collections::BTreeMap;
 use std::f64::consts::PI;
 
@@ -318,6 +318,7 @@ struct Poly {
     cum: Vec<f64>, // cumulative length at each vertex
     is_line: bool,
     curv_ok: bool, // min radius of curvature comfortably above w/2 (lines: true)
+    ctrl: Option<[Point; 4]>, // control points when the piece is a curve
 }
 
 impl Poly {
@@ -329,7 +330,7 @@ impl Poly {
             s += (pts[i] - pts[i - 1]).hypot();
             cum.push(s);
         }
-        Poly { pts, cum, is_line, curv_ok }
+        Poly { pts, cum, is_line, curv_ok, ctrl: None }
     }
     fn len(&self) -> f64 {
         *self.cum.last().unwrap()
@@ -434,7 +435,9 @@ fn source_polys(els: &[PathEl], w: f64, eps: f64) -> Vec<Poly> {
                     let c = raise(last, p1, p2);
                     let mut pts = vec![last];
                     flatten_cubic(&c, eps, &mut pts);
-                    v.push(Poly::new(pts, false, min_curv_radius(&c) > need));
+                    let mut po = Poly::new(pts, false, min_curv_radius(&c) > need);
+                    po.ctrl = Some(c);
+                    v.push(po);
                 }
                 last = p2;
             }
@@ -448,7 +451,9 @@ fn source_polys(els: &[PathEl], w: f64, eps: f64) -> Vec<Poly> {
                     } else {
                         let mut pts = vec![last];
                         flatten_cubic(&c, eps, &mut pts);
-                        v.push(Poly::new(pts, false, min_curv_radius(&c) > need));
+                        let mut po = Poly::new(pts, false, min_curv_radius(&c) > need);
+                        po.ctrl = Some(c);
+                        v.push(po);
                     }
                 }
                 last = p3;
@@ -603,8 +608,449 @@ fn wild_control_point(src: &[PathEl], out: &[PathEl], a: &[f64]) -> Option<Point
     None
 }
 
+/// Cause of C04-hairpin-wild-outline, demonstrated on the output: the fitter emitted a cubic whose control arm
+/// is out of all proportion to its chord - a control point farther from the source path than
+/// reach + band + 2 * chord (a cubic that approximates a stretch of an offset curve turning by at most half a
+/// turn keeps its control points within 0.7 chord of that curve).
+fn runaway_cubic(out: &[PathEl], src: &[Poly], reach: f64, band: f64) -> Option<(Point, Point, Point)> {
+    let mut last = Point::ORIGIN;
+    let dist = |p: Point| src.iter().fold(f64::INFINITY, |m, s| m.min(s.dist(p).0));
+    for e in out {
+        match *e {
+            PathEl::MoveTo(p) | PathEl::LineTo(p) => last = p,
+            PathEl::QuadTo(a, b) => {
+                let chord = (b - last).hypot();
+                if dist(a) > reach + band + 2.0 * chord {
+                    return Some((last, a, b));
+                }
+                last = b;
+            }
+            PathEl::CurveTo(a, b, c) => {
+                let chord = (c - last).hypot();
+                let lim = reach + band + 2.0 * chord;
+                if (a - last).hypot().max((b - c).hypot()) > 2.0 * chord && (dist(a) > lim || dist(b) > lim) {
+                    return Some((last, if dist(a) > lim { a } else { b }, c));
+                }
+                last = c;
+            }
+            PathEl::ClosePath => {}
+        }
+    }
+    None
+}
+
 fn is_polyline(els: &[PathEl]) -> bool {
     els.iter().all(|e| !matches!(e, PathEl::QuadTo(..) | PathEl::CurveTo(..)))
+}
+
+// ------------------------------------------------------------------ classifiers for the known findings
+// A violation is attributed to a known finding only if its known CAUSE is demonstrated on the input;
+// everything else is a plain region:* violation.
+
+/// Reference copy of `CubicBez::detect_cusp` as of the pinned tree (0 none, 1 loop, 2 double inflection).
+/// Independent of the tree under test on purpose: a change to the library's own regularisation must not
+/// excuse itself.
+fn ref_detect_cusp(c: &CubicBez, dimension: f64) -> u8 {
+    let d01 = c.p1 - c.p0;
+    let d02 = c.p2 - c.p0;
+    let d03 = c.p3 - c.p0;
+    let d12 = c.p2 - c.p1;
+    let d23 = c.p3 - c.p2;
+    let det_012 = d01.cross(d02);
+    let det_123 = d12.cross(d23);
+    let det_013 = d01.cross(d03);
+    let det_023 = d02.cross(d03);
+    if det_012 * det_123 > 0.0 && det_012 * det_013 < 0.0 && det_012 * det_023 < 0.0 {
+        let q = c.deriv();
+        let nearest = q.nearest(Point::ORIGIN, 1e-9);
+        let d = q.eval(nearest.t);
+        let d2 = q.deriv().eval(nearest.t);
+        let cross = d.to_vec2().cross(d2.to_vec2());
+        if nearest.distance_sq.powi(3) <= (cross * dimension).powi(2) {
+            let a = 3. * det_012 + det_023 - 2. * det_013;
+            let b = -3. * det_012 + det_013;
+            let cc = det_012;
+            let disc = b * b - 4. * a * cc;
+            return if disc > 0.0 { 2 } else { 1 };
+        }
+    }
+    0
+}
+
+/// Reference copy of `CubicBez::regularize` as of the pinned tree, with the branch it takes:
+/// "none", "start-nudge", "end-nudge", "thirds", "loop", "double-inflection" (nudges may combine with a cusp branch)
+fn ref_regularize(cin: &CubicBez, dimension: f64) -> (CubicBez, String) {
+    let mut c = *cin;
+    let mut tag = String::new();
+    let dim2 = dimension * dimension;
+    if c.p0.distance_squared(c.p1) < dim2 {
+        let d02 = c.p0.distance_squared(c.p2);
+        if d02 >= dim2 {
+            c.p1 = c.p0.lerp(c.p2, (dim2 / d02).sqrt());
+            tag.push_str("start-nudge");
+        } else {
+            c.p1 = c.p0.lerp(c.p3, 1.0 / 3.0);
+            c.p2 = c.p3.lerp(c.p0, 1.0 / 3.0);
+            return (c, "thirds".into());
+        }
+    }
+    if c.p3.distance_squared(c.p2) < dim2 {
+        let d13 = c.p1.distance_squared(c.p2);
+        if d13 >= dim2 {
+            c.p2 = c.p3.lerp(c.p1, (dim2 / d13).sqrt());
+            if !tag.is_empty() {
+                tag.push('+');
+            }
+            tag.push_str("end-nudge");
+        } else {
+            c.p1 = c.p0.lerp(c.p3, 1.0 / 3.0);
+            c.p2 = c.p3.lerp(c.p0, 1.0 / 3.0);
+            return (c, "thirds".into());
+        }
+    }
+    let ct = ref_detect_cusp(cin, dimension);
+    if ct != 0 {
+        let d01 = c.p1 - c.p0;
+        let d01h = d01.hypot();
+        let d23 = c.p3 - c.p2;
+        let d23h = d23.hypot();
+        if !tag.is_empty() {
+            tag.push('+');
+        }
+        if ct == 1 {
+            c.p1 += (dimension / d01h) * d01;
+            c.p2 -= (dimension / d23h) * d23;
+            tag.push_str("loop");
+        } else {
+            if d01h > 2.0 * dimension {
+                c.p1 -= (dimension / d01h) * d01;
+            }
+            if d23h > 2.0 * dimension {
+                c.p2 += (dimension / d23h) * d23;
+            }
+            tag.push_str("double-inflection");
+        }
+    }
+    if tag.is_empty() {
+        tag.push_str("none");
+    }
+    (c, tag)
+}
+
+fn cubic_d1(c: &[Point; 4], t: f64) -> Vec2 {
+    let mt = 1.0 - t;
+    3.0 * (mt * mt * (c[1] - c[0]) + 2.0 * mt * t * (c[2] - c[1]) + t * t * (c[3] - c[2]))
+}
+fn cubic_d2(c: &[Point; 4], t: f64) -> Vec2 {
+    let mt = 1.0 - t;
+    6.0 * (mt * (c[2].to_vec2() - 2.0 * c[1].to_vec2() + c[0].to_vec2()) + t * (c[3].to_vec2() - 2.0 * c[2].to_vec2() + c[1].to_vec2()))
+}
+fn curv_radius_at(c: &[Point; 4], t: f64) -> f64 {
+    let (v, a) = (cubic_d1(c, t), cubic_d2(c, t));
+    let sp = v.hypot();
+    let k = v.cross(a).abs();
+    if k > 0.0 { sp * sp * sp / k } else { f64::INFINITY }
+}
+
+/// radius of curvature of the source at its point nearest to q (infinite on straight pieces), and whether some
+/// OTHER stretch of the source with radius of curvature below `half` comes within `lim` of q
+fn tightness_near(src: &[Poly], q: Point, half: f64, lim: f64) -> (f64, bool, Option<[Point; 4]>) {
+    let mut best = (f64::INFINITY, f64::INFINITY);
+    let mut best_c: Option<[Point; 4]> = None;
+    let mut tight_near = false;
+    for s in src {
+        if let Some(c) = s.ctrl {
+            let n = s.pts.len() - 1;
+            for (i, p) in s.pts.iter().enumerate() {
+                let d = (q - *p).hypot();
+                let rad = curv_radius_at(&c, i as f64 / n as f64);
+                if d < best.0 {
+                    best = (d, rad);
+                    best_c = Some(c);
+                }
+                if rad < half && d <= lim {
+                    tight_near = true;
+                }
+            }
+        } else {
+            let (d, _) = s.dist(q);
+            if d < best.0 {
+                best = (d, f64::INFINITY);
+                best_c = None;
+            }
+        }
+    }
+    (best.1, tight_near, best_c)
+}
+
+/// Cause of C04-exact-cusp: the derivative of a source cubic vanishes (to 1e-6 of its largest control arm) at an
+/// interior parameter: the normal flips there, the two parallel curves swap sides discontinuously.
+fn exact_cusp(src: &[Poly]) -> Option<(Point, f64)> {
+    for s in src {
+        if let Some(c) = s.ctrl {
+            let arm = (c[1] - c[0]).hypot().max((c[2] - c[1]).hypot()).max((c[3] - c[2]).hypot());
+            if arm == 0.0 {
+                continue;
+            }
+            let n = 2000;
+            let mut best = (f64::INFINITY, 0.0);
+            for i in 1..n {
+                let t = i as f64 / n as f64;
+                let sp = cubic_d1(&c, t).hypot();
+                if sp < best.0 {
+                    best = (sp, t);
+                }
+            }
+            // local refinement (ternary search on the speed)
+            let (mut lo, mut hi) = ((best.1 - 1.0 / n as f64).max(0.0), (best.1 + 1.0 / n as f64).min(1.0));
+            for _ in 0..80 {
+                let (m1, m2) = (lo + (hi - lo) / 3.0, hi - (hi - lo) / 3.0);
+                if cubic_d1(&c, m1).hypot() < cubic_d1(&c, m2).hypot() {
+                    hi = m2;
+                } else {
+                    lo = m1;
+                }
+            }
+            let t = 0.5 * (lo + hi);
+            let sp = cubic_d1(&c, t).hypot();
+            if t > 1e-3 && t < 1.0 - 1e-3 && sp <= 3e-5 * arm {
+                return Some((cubic_pt(&c, t), sp / arm));
+            }
+        }
+    }
+    None
+}
+
+/// Cause of C04-unrecognised-cusp: a source cubic has an interior point whose radius of curvature is below the
+/// regularisation dimension (tolerance/4) - a near-cusp that needs regularising - but the reference detect_cusp
+/// does not classify it (its control polygon is not of the self-crossing shape the test looks for), so the raw
+/// curve is offset across a half-turn of the normal within a stretch shorter than the tolerance.
+fn unrecognised_cusp(src: &[Poly], tol: f64) -> Option<(Point, f64)> {
+    let dim = 0.25 * tol;
+    for s in src {
+        if let Some(c) = s.ctrl {
+            let cb = CubicBez::new(c[0], c[1], c[2], c[3]);
+            if ref_detect_cusp(&cb, dim) != 0 {
+                continue;
+            }
+            let n = 4000;
+            let mut best = (f64::INFINITY, 0.5);
+            for i in 1..n {
+                let t = i as f64 / n as f64;
+                let r = curv_radius_at(&c, t);
+                if r < best.0 {
+                    best = (r, t);
+                }
+            }
+            let (mut lo, mut hi) = ((best.1 - 1.0 / n as f64).max(0.0), (best.1 + 1.0 / n as f64).min(1.0));
+            for _ in 0..80 {
+                let (m1, m2) = (lo + (hi - lo) / 3.0, hi - (hi - lo) / 3.0);
+                if curv_radius_at(&c, m1) < curv_radius_at(&c, m2) {
+                    hi = m2;
+                } else {
+                    lo = m1;
+                }
+            }
+            let t = 0.5 * (lo + hi);
+            let r = curv_radius_at(&c, t).min(best.0);
+            if t > 1e-3 && t < 1.0 - 1e-3 && r < dim {
+                return Some((cubic_pt(&c, t), r));
+            }
+        }
+    }
+    None
+}
+
+/// Cause of C04-tight-curve-uncovered: q lies past the centre of curvature of a point of the source whose
+/// normal passes through q within width/2 (the normal sweep folds over there: Jacobian 1 - s*kappa < 0),
+/// so the parallel-curve outline (not the exact sweep) winds around q with cancelling signs.
+fn past_evolute(src: &[Poly], q: Point, half: f64, band: f64) -> bool {
+    for s in src {
+        let c = match s.ctrl {
+            Some(c) => c,
+            None => continue,
+        };
+        let d1 = |t: f64| {
+            let mt = 1.0 - t;
+            3.0 * (mt * mt * (c[1] - c[0]) + 2.0 * mt * t * (c[2] - c[1]) + t * t * (c[3] - c[2]))
+        };
+        let d2 = |t: f64| {
+            let mt = 1.0 - t;
+            6.0 * (mt * (c[2].to_vec2() - 2.0 * c[1].to_vec2() + c[0].to_vec2()) + t * (c[3].to_vec2() - 2.0 * c[2].to_vec2() + c[1].to_vec2()))
+        };
+        let g = |t: f64| (q - cubic_pt(&c, t)).dot(d1(t));
+        let n = 1000;
+        let mut prev = g(0.0);
+        for i in 1..=n {
+            let t1 = i as f64 / n as f64;
+            let cur = g(t1);
+            if (prev > 0.0) != (cur > 0.0) {
+                // a foot of q on the curve: refine
+                let (mut lo, mut hi, mut glo) = (t1 - 1.0 / n as f64, t1, prev);
+                for _ in 0..50 {
+                    let mid = 0.5 * (lo + hi);
+                    let gm = g(mid);
+                    if (gm > 0.0) == (glo > 0.0) {
+                        lo = mid;
+                        glo = gm;
+                    } else {
+                        hi = mid;
+                    }
+                }
+                let t = 0.5 * (lo + hi);
+                let (v, a) = (d1(t), d2(t));
+                let sp = v.hypot();
+                if sp > 0.0 {
+                    let nrm = Vec2::new(-v.y, v.x) / sp;
+                    let off = (q - cubic_pt(&c, t)).dot(nrm);
+                    let kappa = v.cross(a) / (sp * sp * sp);
+                    if std::env::var("C04_DEBUG2").is_ok() {
+                        eprintln!("FOOT t={} off={} kappa={} J={} speed={}", t, off, kappa, 1.0 - off * kappa, sp);
+                    }
+                    if off.abs() <= half + band && 1.0 - off * kappa < -0.05 {
+                        return true;
+                    }
+                }
+            }
+            prev = cur;
+        }
+    }
+    false
+}
+
+/// reference copy of the cubic arm of `PathSeg::tangents` as of the pinned tree
+fn ref_tangents(c: &CubicBez) -> (Vec2, Vec2) {
+    const EPS: f64 = 1e-12;
+    let d01 = c.p1 - c.p0;
+    let d0 = if d01.hypot2() > EPS {
+        d01
+    } else {
+        let d02 = c.p2 - c.p0;
+        if d02.hypot2() > EPS { d02 } else { c.p3 - c.p0 }
+    };
+    let d23 = c.p3 - c.p2;
+    let d1 = if d23.hypot2() > EPS {
+        d23
+    } else {
+        let d13 = c.p3 - c.p1;
+        if d13.hypot2() > EPS { d13 } else { c.p3 - c.p0 }
+    };
+    (d0, d1)
+}
+
+/// Cause of C04-short-arm-tangent-mismatch: a control arm shorter than the regularisation dimension (tolerance/4)
+/// but longer than 1e-6 gives the direction of the cap / join at that end, while the offset curves are computed
+/// from the regularised cubic whose arm points elsewhere; the two directions differ by so much that the end of
+/// the offset curve is more than the band away from where the cap / join expects it.
+fn arm_mismatch(els: &[PathEl], tol: f64, half: f64, band: f64) -> Option<String> {
+    let dim = 0.25 * tol;
+    let mut last = Point::ORIGIN;
+    let mut start = Point::ORIGIN;
+    for el in els {
+        let cubic = match *el {
+            PathEl::MoveTo(p) => {
+                start = p;
+                last = p;
+                None
+            }
+            PathEl::LineTo(p) => {
+                last = p;
+                None
+            }
+            PathEl::QuadTo(p1, p2) => {
+                let c = raise(last, p1, p2);
+                last = p2;
+                Some(CubicBez::new(c[0], c[1], c[2], c[3]))
+            }
+            PathEl::CurveTo(p1, p2, p3) => {
+                let c = CubicBez::new(last, p1, p2, p3);
+                last = p3;
+                Some(c)
+            }
+            PathEl::ClosePath => {
+                last = start;
+                None
+            }
+        };
+        if let Some(c) = cubic {
+            let (rc, tag) = ref_regularize(&c, dim);
+            if tag.contains("nudge") || tag.contains("thirds") {
+                let (a0, a1) = ref_tangents(&c);
+                let (b0, b1) = ref_tangents(&rc);
+                for (a, b, which) in [(a0, b0, "start"), (a1, b1, "end")] {
+                    let (la, lb) = (a.hypot(), b.hypot());
+                    if la > 0.0 && lb > 0.0 {
+                        let gap = half * ((a / la) - (b / lb)).hypot();
+                        if gap > band {
+                            return Some(format!("{} arm of {:?}: raw direction {:?}, regularised direction {:?}, offset end points {} apart", which, c, a / la, b / lb, gap));
+                        }
+                    }
+                }
+            }
+        }
+    }
+    None
+}
+
+/// the regularize branches (reference copy) of the curves of a path, for diagnostics
+fn regularize_tags(els: &[PathEl], tol: f64) -> String {
+    let dim = 0.25 * tol;
+    let mut last = Point::ORIGIN;
+    let mut start = Point::ORIGIN;
+    let mut v: Vec<String> = Vec::new();
+    for el in els {
+        match *el {
+            PathEl::MoveTo(p) => {
+                start = p;
+                last = p;
+            }
+            PathEl::LineTo(p) => last = p,
+            PathEl::QuadTo(p1, p2) => {
+                let c = raise(last, p1, p2);
+                v.push(ref_regularize(&CubicBez::new(c[0], c[1], c[2], c[3]), dim).1);
+                last = p2;
+            }
+            PathEl::CurveTo(p1, p2, p3) => {
+                v.push(ref_regularize(&CubicBez::new(last, p1, p2, p3), dim).1);
+                last = p3;
+            }
+            PathEl::ClosePath => last = start,
+        }
+    }
+    v.join(",")
+}
+
+/// the path with every curve replaced by its reference regularisation (what the stroker actually offsets)
+fn regularized_polys(els: &[PathEl], tol: f64, eps: f64) -> Vec<Poly> {
+    let dim = 0.25 * tol;
+    let mut v = Vec::new();
+    let (mut last, mut start) = (Point::ORIGIN, Point::ORIGIN);
+    for el in els {
+        match *el {
+            PathEl::MoveTo(p) => {
+                start = p;
+                last = p;
+            }
+            PathEl::LineTo(p) => last = p,
+            PathEl::QuadTo(p1, p2) => {
+                let c = raise(last, p1, p2);
+                let (rc, _) = ref_regularize(&CubicBez::new(c[0], c[1], c[2], c[3]), dim);
+                let mut pts = vec![rc.p0];
+                flatten_cubic(&[rc.p0, rc.p1, rc.p2, rc.p3], eps, &mut pts);
+                v.push(Poly::new(pts, false, true));
+                last = p2;
+            }
+            PathEl::CurveTo(p1, p2, p3) => {
+                let (rc, _) = ref_regularize(&CubicBez::new(last, p1, p2, p3), dim);
+                let mut pts = vec![rc.p0];
+                flatten_cubic(&[rc.p0, rc.p1, rc.p2, rc.p3], eps, &mut pts);
+                v.push(Poly::new(pts, false, true));
+                last = p3;
+            }
+            PathEl::ClosePath => last = start,
+        }
+    }
+    v
 }
 
 // ------------------------------------------------------------------ law arguments
@@ -670,8 +1116,27 @@ fn reach_factor(a: &[f64]) -> f64 {
 /// Outside: every query farther than reach * width/2 + band from the whole path.
 /// band = 3 * tolerance + flattening errors of both oracles. Queries within the flattening error of the
 /// outline itself are skipped. Non-finite outlines are not judged here (C14).
+/// the known classes are frequent on the cusp families; only the first few of each are reported per run so that
+/// the (capped) violation list keeps room for anything else
+fn throttle(res: Option<(String, String)>) -> Option<(String, String)> {
+    use std::sync::atomic::{AtomicUsize, Ordering};
+    static COUNTS: [AtomicUsize; 7] = [AtomicUsize::new(0), AtomicUsize::new(0), AtomicUsize::new(0), AtomicUsize::new(0), AtomicUsize::new(0), AtomicUsize::new(0), AtomicUsize::new(0)];
+    const KNOWN: [&str; 7] = ["outline:runaway-cubic", "region:uncovered:past-evolute", "region:overreach:regularized-cusp", "region:uncovered:regularized-cusp",
+        "region:uncovered:short-arm-tangent-mismatch", "region:uncovered:exact-cusp", "region:uncovered:unrecognised-cusp"];
+    if let Some((c, _)) = &res {
+        for (i, k) in KNOWN.iter().enumerate() {
+            if c.starts_with(k) {
+                if COUNTS[i].fetch_add(1, Ordering::Relaxed) >= 12 {
+                    return None;
+                }
+            }
+        }
+    }
+    res
+}
+
 fn law_region(a: &[f64]) -> Option<(String, String)> {
-    region_core(decode(a), None)
+    throttle(region_core(decode(a), None))
 }
 
 /// the same judgement at one given query point: args = [qx, qy] ++ the arguments of the region law
@@ -687,7 +1152,7 @@ fn region_core(inst: Inst, fixed_q: Option<Point>) -> Option<(String, String)> {
     }
     if let Some(p) = wild_control_point(&inst.els, out.elements(), &inst.a) {
         return fail(
-            &format!("outline:wild-control-point:{}{}", if is_polyline(&inst.els) { "polyline" } else { "curve" }, if inst.dashes.is_empty() { "" } else { ":dashed" }),
+            &format!("outline:runaway-cubic:{}{}", if is_polyline(&inst.els) { "polyline" } else { "curve" }, if inst.dashes.is_empty() { "" } else { ":dashed" }),
             format!("outline control point {:?} is absurdly far from the path; {}", p, describe(&inst)),
         );
     }
@@ -707,6 +1172,22 @@ fn region_core(inst: Inst, fixed_q: Option<Point>) -> Option<(String, String)> {
     let half = 0.5 * w;
     let reach = reach_factor(&inst.a) * half;
     let all_round = inst.a[1] as i32 == 2 && inst.a[3] as i32 == 2 && inst.a[4] as i32 == 2;
+    if let Some((a, c, b)) = runaway_cubic(out.elements(), &src, reach, band) {
+        return fail(
+            &format!("outline:runaway-cubic:{}{}", if is_polyline(&inst.els) { "polyline" } else { "curve" }, if inst.dashes.is_empty() { "" } else { ":dashed" }),
+            format!("the outline contains the cubic {:?} .. {:?} with control point {:?}, out of proportion to its chord and far from the path; {}", a, b, c, describe(&inst)),
+        );
+    }
+    if let Some(why) = arm_mismatch(&src_els, inst.tol, half, band) {
+        // judged only by the other laws: the whole neighbourhood of that end is unreliable
+        return probe_instance(&inst, &src, &polys, half, band, eps, scale, "region:uncovered:short-arm-tangent-mismatch", why, fixed_q);
+    }
+    if let Some((cp, rel)) = exact_cusp(&src) {
+        return probe_instance(&inst, &src, &polys, half, band, eps, scale, "region:uncovered:exact-cusp", format!("the derivative of a source cubic vanishes at {:?} (speed / arm = {:e})", cp, rel), fixed_q);
+    }
+    if let Some((cp, rad)) = unrecognised_cusp(&src, inst.tol) {
+        return probe_instance(&inst, &src, &polys, half, band, eps, scale, "region:uncovered:unrecognised-cusp", format!("radius of curvature {:e} < tolerance/4 at {:?} of a cubic that detect_cusp does not classify", rad, cp), fixed_q);
+    }
     // "curve-tight": some curved source segment has a radius of curvature not comfortably above width/2
     // (there the parallel-curve construction is not the exact sweep; only round joins + caps reach such input)
     let kind = if is_polyline(&inst.els) { "polyline" } else if src.iter().all(|s| s.curv_ok) { "curve" } else { "curve-tight" };
@@ -721,9 +1202,44 @@ fn region_core(inst: Inst, fixed_q: Option<Point>) -> Option<(String, String)> {
     }
     let infl = reach + band + 0.25 * w + 0.1;
     let mut r = Rng::new(inst.qseed ^ 0x5eed);
+    // the sharpest points of the curved pieces (hairpin tips, cusps): query points are also placed around them
+    let mut tips: Vec<(Point, Vec2)> = Vec::new();
+    for s in &src {
+        if let Some(c) = s.ctrl {
+            let mut best = (f64::INFINITY, 0.5);
+            for i in 0..=400 {
+                let t = i as f64 / 400.0;
+                let mt = 1.0 - t;
+                let v = 3.0 * (mt * mt * (c[1] - c[0]) + 2.0 * mt * t * (c[2] - c[1]) + t * t * (c[3] - c[2]));
+                let a = 6.0 * (mt * (c[2].to_vec2() - 2.0 * c[1].to_vec2() + c[0].to_vec2()) + t * (c[3].to_vec2() - 2.0 * c[2].to_vec2() + c[1].to_vec2()));
+                let sp = v.hypot();
+                let k = v.cross(a).abs();
+                let rad = if k > 0.0 { sp * sp * sp / k } else { f64::INFINITY };
+                if rad < best.0 {
+                    best = (rad, t);
+                }
+            }
+            if best.0 < 2.0 * half {
+                let t = best.1;
+                let dt = 1e-3;
+                let dir = cubic_pt(&c, (t + dt).min(1.0)) - cubic_pt(&c, (t - dt).max(0.0));
+                tips.push((cubic_pt(&c, t), dir));
+            }
+        }
+    }
+    let mut known_hit: Option<(String, String)> = None;
     for _ in 0..(if fixed_q.is_some() { 1 } else { inst.nq }) {
         let q = if let Some(q) = fixed_q {
             q
+        } else if !tips.is_empty() && r.chance(1, 3) {
+            let (tp, _) = tips[r.below(tips.len() as u64) as usize];
+            let th = r.uniform(0.0, 2.0 * PI);
+            let rad = match r.below(4) {
+                0 => half - band * r.uniform(1.0, 3.0),
+                1 => reach + band * r.uniform(1.0, 3.0),
+                _ => r.uniform(0.0, reach + 2.0 * band),
+            };
+            tp + Vec2::new(th.cos(), th.sin()) * rad.max(0.0)
         } else if r.chance(1, 4) {
             Point::new(r.uniform(x0 - infl, x1 + infl), r.uniform(y0 - infl, y1 + infl))
         } else {
@@ -778,6 +1294,9 @@ fn region_core(inst: Inst, fixed_q: Option<Point>) -> Option<(String, String)> {
             continue;
         }
         let (wn, dout) = winding_and_dist(&polys, q);
+        if std::env::var("C04_DEBUG3").is_ok() {
+            eprintln!("WN q={:?} wn={} dmin={} must_in={} must_out={} nout={}", q, wn, dmin, must_in, must_out, out.elements().len());
+        }
         if dout <= 2.0 * eps + 1e-12 * scale {
             continue;
         }
@@ -787,16 +1306,71 @@ fn region_core(inst: Inst, fixed_q: Option<Point>) -> Option<(String, String)> {
                 eprintln!("OUT {}", out.to_svg());
                 eprintln!("Q {:?} dmin {} kurbo-winding {}", q, dmin, kurbo::Shape::winding(&out, q));
             }
-            return fail(
-                &format!("region:uncovered:{}:{}-{}-{}{}", kind, jname(inst.a[1]), cname(inst.a[3]), cname(inst.a[4]), dashed),
-                format!("point {:?} at distance {} from the path (width/2 = {}, band {}) has winding number 0 in the outline; {}", q, dmin, half, band, describe(&inst)),
-            );
+            let style = format!("{}-{}-{}{}", jname(inst.a[1]), cname(inst.a[3]), cname(inst.a[4]), dashed);
+            let desc = format!("point {:?} at distance {} from the path (width/2 = {}, band {}) has winding number 0 in the outline; {} regularize=[{}]", q, dmin, half, band, describe(&inst), regularize_tags(&src_els, inst.tol));
+            let slack = 6.0 * inst.tol;
+            let (rad_near, tight_other, near_c) = tightness_near(&src, q, half, half + band);
+            let near_tag = near_c.map(|c| ref_regularize(&CubicBez::new(c[0], c[1], c[2], c[3]), 0.25 * inst.tol).1).unwrap_or_default();
+            let cause = if past_evolute(&src, q, half, band) {
+                Some(("past-evolute", "q lies past the centre of curvature of a source point whose normal reaches it".to_string()))
+            } else if rad_near >= half && tight_other {
+                Some(("past-evolute", "q's nearest source point is regular but a stretch with radius of curvature below width/2 is within reach of q (its inner parallel curve is a swallowtail)".to_string()))
+            } else if rad_near < half {
+                // the tip of a hairpin / cusp: the stroker offsets the (reference-)regularised cubic and fits across the swing
+                let reg = regularized_polys(&src_els, inst.tol, eps);
+                let dreg = reg.iter().fold(f64::INFINITY, |m, s| m.min(s.dist(q).0));
+                if dreg > half - band - slack {
+                    Some(("regularized-cusp", format!("q is {} from the regularised curve: not (robustly) inside its stroke", dreg)))
+                } else if near_tag.contains("loop") {
+                    Some(("regularized-cusp", "q is at the tip of a near-cusp that regularize treats as a Loop (control arms pushed outwards by tolerance/4 each)".to_string()))
+                } else {
+                    None
+                }
+            } else {
+                None
+            };
+            if let Some((c, why)) = cause {
+                // known cause demonstrated: keep looking for a failure that is not explained
+                if known_hit.is_none() {
+                    known_hit = Some((format!("region:uncovered:{}:{}", c, style), format!("({}) {}", why, desc)));
+                }
+                continue;
+            }
+            return fail(&format!("region:uncovered:{}:{}", kind, style), desc);
         }
         if must_out && wn != 0 {
-            return fail(
-                &format!("region:overreach:{}:{}-{}-{}{}", kind, jname(inst.a[1]), cname(inst.a[3]), cname(inst.a[4]), dashed),
-                format!("point {:?} at distance {} from the path (allowed reach {} + band {}) has winding number {} in the outline; {}", q, dmin, reach, band, wn, describe(&inst)),
-            );
+            let style = format!("{}-{}-{}{}", jname(inst.a[1]), cname(inst.a[3]), cname(inst.a[4]), dashed);
+            let desc = format!("point {:?} at distance {} from the path (allowed reach {} + band {}) has winding number {} in the outline; {} regularize=[{}]", q, dmin, reach, band, wn, describe(&inst), regularize_tags(&src_els, inst.tol));
+            // known cause: the stroker offsets the REGULARISED cubic; near a cusp its tip lies more than the
+            // tolerance away from the source's (reference copy of regularize, not the tree's own)
+            let reg = regularized_polys(&src_els, inst.tol, eps);
+            let dreg = reg.iter().fold(f64::INFINITY, |m, s| m.min(s.dist(q).0));
+            let (rad_near, _, _) = tightness_near(&src, q, half, 0.0);
+            if dreg < reach + band || (rad_near < half && dreg < reach + band + 6.0 * inst.tol) {
+                if known_hit.is_none() {
+                    known_hit = Some((format!("region:overreach:regularized-cusp:{}", style), format!("(q is {} from the regularised curve; nearest source point has radius of curvature {}) {}", dreg, rad_near, desc)));
+                }
+                continue;
+            }
+            return fail(&format!("region:overreach:{}:{}", kind, style), desc);
+        }
+    }
+    known_hit
+}
+
+/// an input on which an instance-level known cause is demonstrated: report the known finding only if the fill really
+/// is wrong somewhere within width/2 - band of the path (round joins and caps: every such point must be covered)
+fn probe_instance(inst: &Inst, src: &[Poly], polys: &[Vec<Point>], half: f64, band: f64, eps: f64, scale: f64, class: &str, why: String, fixed_q: Option<Point>) -> Option<(String, String)> {
+    let mut r = Rng::new(inst.qseed ^ 0xa53);
+    for _ in 0..inst.nq.max(1) {
+        let s = &src[r.below(src.len() as u64) as usize];
+        let i = 1 + r.below((s.pts.len() - 1) as u64) as usize;
+        let base = s.pts[i - 1].lerp(s.pts[i], r.unit());
+        let th = r.uniform(0.0, 2.0 * PI);
+        let q = fixed_q.unwrap_or(base + Vec2::new(th.cos(), th.sin()) * r.uniform(0.0, (half - band).max(0.0)));
+        let (wn, dout) = winding_and_dist(polys, q);
+        if dout > 2.0 * eps + 1e-12 * scale && wn == 0 && half > band {
+            return fail(class, format!("point {:?} within width/2 - band of the path has winding number 0; cause: {}; {}", q, why, describe(inst)));
         }
     }
     None
@@ -992,16 +1566,29 @@ fn law_exact_shape(a: &[f64]) -> Option<(String, String)> {
 
 /// no control point of the outline lies absurdly far from the path (finite but meaningless outlines)
 fn law_outline_bounded(a: &[f64]) -> Option<(String, String)> {
+    throttle(outline_bounded_core(a))
+}
+
+fn outline_bounded_core(a: &[f64]) -> Option<(String, String)> {
     let inst = decode(a);
     let out = stroke(inst.els.iter().cloned(), &inst.st, &StrokeOpts::default(), inst.tol);
     if !all_finite(out.elements()) {
         return None;
     }
+    let cls = format!("outline:runaway-cubic:{}{}", if is_polyline(&inst.els) { "polyline" } else { "curve" }, if inst.dashes.is_empty() { "" } else { ":dashed" });
     if let Some(p) = wild_control_point(&inst.els, out.elements(), &inst.a) {
-        return fail(
-            &format!("outline:wild-control-point:{}{}", if is_polyline(&inst.els) { "polyline" } else { "curve" }, if inst.dashes.is_empty() { "" } else { ":dashed" }),
-            format!("outline control point {:?} is absurdly far from the path; {}", p, describe(&inst)),
-        );
+        return fail(&cls, format!("outline control point {:?} is absurdly far from the path; {}", p, describe(&inst)));
+    }
+    let src_els: Vec<PathEl> = if inst.dashes.is_empty() { inst.els.clone() } else { dash(inst.els.iter().cloned(), inst.dash_offset, &inst.dashes).collect() };
+    let eps = 0.02 * inst.tol;
+    let src = source_polys(&src_els, inst.a[0], eps);
+    if src.is_empty() {
+        return None;
+    }
+    let half = 0.5 * inst.a[0];
+    let band = 3.0 * inst.tol + 2.0 * eps;
+    if let Some((p0, c, p3)) = runaway_cubic(out.elements(), &src, reach_factor(&inst.a) * half, band) {
+        return fail(&cls, format!("the outline contains the cubic {:?} .. {:?} with control point {:?}, out of proportion to its chord and far from the path; {}", p0, p3, c, describe(&inst)));
     }
     None
 }
@@ -1205,6 +1792,67 @@ fn gen_wild_cubics(r: &mut Rng) -> Vec<PathEl> {
     els
 }
 
+/// near-cusp cubics: an exact cusp at parameter t0 (derivative zero) perturbed by a multiple of the
+/// regularisation dimension, control arms in ratios 1:1 .. 1:100 in both orders, several scales; also control
+/// points within the dimension of an end point. Exercises every branch of `regularize` (tags in the evidence).
+fn gen_near_cusp(r: &mut Rng) -> (Vec<f64>, Vec<PathEl>) {
+    let scale = *r.pick(&[0.3, 1.0, 3.0, 10.0, 30.0]) * r.uniform(0.7, 1.4);
+    let ratio = log_uniform(r, 1.0, 100.0);
+    let (la, lb) = if r.bool() { (scale, scale * ratio) } else { (scale * ratio, scale) };
+    // keep the whole thing within a few hundred units
+    let shrink = (200.0 / la.max(lb)).min(1.0);
+    let (la, lb) = (la * shrink, lb * shrink);
+    let w = (la.min(lb) * log_uniform(r, 0.05, 4.0)).clamp(0.05, 10.0);
+    let tol = log_uniform(r, 1e-3, 0.5).min(0.08 * w).max(1e-3);
+    let dim = 0.25 * tol;
+    let phi = r.uniform(0.15, PI - 0.15) * if r.bool() { 1.0 } else { -1.0 };
+    let (u, v) = (Vec2::new(1.0, 0.0), Vec2::new(phi.cos(), phi.sin()));
+    let t0 = r.uniform(0.12, 0.88);
+    let (d01, d23) = (u * la, v * lb);
+    let pert = match r.below(6) {
+        0 => 0.0,
+        1 => dim * r.uniform(-3.0, 3.0),
+        2 => dim * r.uniform(-40.0, 40.0),
+        3 => la.min(lb) * r.uniform(-0.05, 0.05),
+        _ => dim * log_uniform(r, 0.1, 100.0) * if r.bool() { 1.0 } else { -1.0 },
+    };
+    let pd = r.uniform(0.0, 2.0 * PI);
+    let d12 = -((1.0 - t0) * (1.0 - t0) * d01 + t0 * t0 * d23) / (2.0 * t0 * (1.0 - t0)) + Vec2::new(pd.cos(), pd.sin()) * pert;
+    let rot = r.uniform(0.0, 2.0 * PI);
+    let org = Point::new(r.uniform(-5.0, 5.0), r.uniform(-5.0, 5.0));
+    let tf = |x: Vec2| Vec2::new(x.x * rot.cos() - x.y * rot.sin(), x.x * rot.sin() + x.y * rot.cos());
+    let p0 = org;
+    let mut p1 = p0 + tf(d01);
+    let mut p2 = p1 + tf(d12);
+    let p3 = p2 + tf(d23);
+    match r.below(10) {
+        0 => p1 = p0 + tf(u) * (dim * r.uniform(0.0, 0.9)),          // start nudge
+        1 => p2 = p3 - tf(v) * (dim * r.uniform(0.0, 0.9)),          // end nudge
+        2 => {
+            // both control points next to p0: the "thirds" fall-back
+            p1 = p0 + tf(u) * (dim * r.uniform(0.0, 0.9));
+            p2 = p0 + tf(v) * (dim * r.uniform(0.0, 0.9));
+        }
+        _ => {}
+    }
+    let mut els = vec![PathEl::MoveTo(p0)];
+    if r.chance(1, 4) {
+        let a = p0 - tf(Vec2::new(-0.6, 0.8)) * (la.min(lb) * r.uniform(0.5, 2.0));
+        els = vec![PathEl::MoveTo(a), PathEl::LineTo(p0)];
+    }
+    els.push(PathEl::CurveTo(p1, p2, p3));
+    if r.chance(1, 4) {
+        els.push(PathEl::LineTo(p3 + tf(Vec2::new(0.6, 0.8)) * (la.min(lb) * r.uniform(0.5, 2.0))));
+    }
+    (vec![w, 2.0, 4.0, 2.0, 2.0, tol], els)
+}
+
+fn g_region_cusp(r: &mut Rng) -> Vec<f64> {
+    let (st, els) = gen_near_cusp(r);
+    let (qs, nq) = (r.next_u64(), 100 + r.below(60) as usize);
+    encode(&st, qs, nq, 0.0, &[], &els)
+}
+
 fn nq_for(r: &mut Rng) -> usize {
     60 + r.below(40) as usize
 }
@@ -1334,6 +1982,7 @@ fn laws() -> Vec<Law> {
         Law { name: "region_polyline", gen: g_region_polyline, check: law_region, weight: 4 },
         Law { name: "region_smooth", gen: g_region_smooth, check: law_region, weight: 3 },
         Law { name: "region_round", gen: g_region_round, check: law_region, weight: 3 },
+        Law { name: "region_cusp", gen: g_region_cusp, check: law_region, weight: 3 },
         Law { name: "region_dashed", gen: g_region_dashed, check: law_region, weight: 1 },
         Law { name: "region_at_point", gen: g_region_at, check: law_region_at, weight: 1 },
         Law { name: "closed_finite", gen: g_closed_finite, check: law_closed_finite, weight: 6 },
@@ -1360,6 +2009,42 @@ fn extra(r: &mut Rng, thorough: bool, o: &mut Out) {
     }
     o.notes.push(format!("non-finite outlines on curved input (C14's finding; excluded from the region laws): {} of {} random instances{}", bad, n,
         first.map(|f| format!("; first: {}", f)).unwrap_or_default()));
+    // which branch of CubicBez::regularize the near-cusp family reaches (reference copy), and whether the tree's own
+    // detect_cusp agrees with the reference copy
+    {
+        let m = if thorough { 20000 } else { 2000 };
+        let mut tags: BTreeMap<String, u64> = BTreeMap::new();
+        let mut ratios: BTreeMap<String, u64> = BTreeMap::new();
+        let mut differ = 0;
+        for _ in 0..m {
+            let (st, els) = gen_near_cusp(r);
+            let dim = 0.25 * st[5];
+            let mut last = Point::ORIGIN;
+            for e in &els {
+                match *e {
+                    PathEl::MoveTo(p) | PathEl::LineTo(p) => last = p,
+                    PathEl::CurveTo(a, b, c) => {
+                        let cb = CubicBez::new(last, a, b, c);
+                        let (_, tag) = ref_regularize(&cb, dim);
+                        *tags.entry(tag.clone()).or_default() += 1;
+                        if cb.verif_detect_cusp(dim) != ref_detect_cusp(&cb, dim) {
+                            differ += 1;
+                        }
+                        if tag.contains("loop") || tag.contains("double") {
+                            let ra = (b - c).hypot() / (a - last).hypot().max(1e-300);
+                            let bucket = if ra < 0.03 { "<1:30" } else if ra < 0.3 { "1:30..1:3" } else if ra < 3.0 { "~1:1" } else if ra < 30.0 { "3:1..30:1" } else { ">30:1" };
+                            *ratios.entry(format!("{}@{}", if tag.contains("loop") { "loop" } else { "dbl-infl" }, bucket)).or_default() += 1;
+                        }
+                        last = c;
+                    }
+                    _ => {}
+                }
+            }
+        }
+        let t: Vec<String> = tags.iter().map(|(k, v)| format!("{}={}", k, v)).collect();
+        let q: Vec<String> = ratios.iter().map(|(k, v)| format!("{}={}", k, v)).collect();
+        o.notes.push(format!("near-cusp family: regularize branches reached: {}; cusp type by last-arm:first-arm ratio: {}; tree's detect_cusp differs from the reference copy on {} of {} cubics", t.join(" "), q.join(" "), differ, m));
+    }
     // witness of the inner-join defect (repaired by proposed_fixes/C04-inner-join-pivot.diff):
     // M(0,0) L(1,0) L(1,10), width 4, bevel, butt: (-0.5, 0.25) is 1.5 from the interior point (1, 0.25)
     {
@@ -1371,36 +2056,36 @@ fn extra(r: &mut Rng, thorough: bool, o: &mut Out) {
             o.violation(&class, desc, format!("{{\"law\":\"region_at_point\",\"args\":{}}}", crate::util::fmt_fs(&a)));
         }
     }
-    // known finding C04-hairpin-wild-outline: a cubic (or a dash of one) ending in a tight hairpin
+    // known findings: witnesses, each judged by the law whose classifier must demonstrate the known cause on it
     {
-        let els = [
-            PathEl::MoveTo(Point::new(7.668605785057374, -0.028511970636109663)),
-            PathEl::CurveTo(Point::new(2.9263895180411756, 1.6903958755584907), Point::new(2.3052348387148136, 0.7266178054876502), Point::new(2.4106899362622545, 0.848889309684042)),
-        ];
+        let cub = |p0: (f64, f64), p1: (f64, f64), p2: (f64, f64), p3: (f64, f64), close: bool| {
+            let mut v = vec![PathEl::MoveTo(Point::new(p0.0, p0.1)), PathEl::CurveTo(Point::new(p1.0, p1.1), Point::new(p2.0, p2.1), Point::new(p3.0, p3.1))];
+            if close {
+                v.push(PathEl::ClosePath);
+            }
+            v
+        };
+        let mut at = |id: &str, want: &str, q: (f64, f64), st: [f64; 6], els: Vec<PathEl>, o: &mut Out| {
+            let mut a = vec![q.0, q.1];
+            a.extend(encode(&st, 0, 1, 0.0, &[], &els));
+            let res = law_region_at(&a);
+            let hit = matches!(&res, Some((c, _)) if c.starts_with(want));
+            o.known(id, hit, res.map(|x| format!("{}: {}", x.0, x.1)).unwrap_or_else(|| "the witness no longer fails".into()));
+        };
+        let els = cub((7.668605785057374, -0.028511970636109663), (2.9263895180411756, 1.6903958755584907), (2.3052348387148136, 0.7266178054876502), (2.4106899362622545, 0.848889309684042), false);
         let a = encode(&[0.24274319433519495, 2.0, 4.0, 2.0, 2.0, 0.011027175279603778], 0, 0, 0.0, &[], &els);
-        let res = law_outline_bounded(&a);
+        let res = outline_bounded_core(&a);
         o.known("C04-hairpin-wild-outline", res.is_some(), res.map(|x| x.1).unwrap_or_else(|| "outline of the witness is bounded".into()));
-    }
-    // known findings on curves whose radius of curvature drops below width/2 (round joins and caps):
-    // the outline is built from parallel curves, not from the exact sweep (stroke.rs says so itself)
-    {
-        let els = [
-            PathEl::MoveTo(Point::new(9.499634494534643, -8.126448073381853)),
-            PathEl::CurveTo(Point::new(-1.488752582710184, 2.23534158027398), Point::new(3.157241217623344, -10.449444973548617), Point::new(4.853640694201115, 4.558338480440744)),
-            PathEl::ClosePath,
-        ];
-        let mut a = vec![2.5996601595717213, -0.12003054839953275];
-        a.extend(encode(&[6.751305898077076, 2.0, 4.0, 2.0, 2.0, 0.06561294281056844], 0, 1, 0.0, &[], &els));
-        let res = law_region_at(&a);
-        o.known("C04-tight-curve-uncovered", res.is_some(), res.map(|x| x.1).unwrap_or_else(|| "witness point is covered".into()));
-        let els = [
-            PathEl::MoveTo(Point::new(-4.891905427624228, 4.668559868765865)),
-            PathEl::CurveTo(Point::new(5.310064929314464, -3.476929891000487), Point::new(5.398067579781608, 4.4942493981818), Point::new(-5.026922418289281, -3.3018230051334863)),
-        ];
-        let mut a = vec![3.6976635443693144, 0.3134411868911364];
-        a.extend(encode(&[1.4824189817891884, 2.0, 4.0, 2.0, 2.0, 0.02177987061405037], 0, 1, 0.0, &[], &els));
-        let res = law_region_at(&a);
-        o.known("C04-tight-curve-overreach", res.is_some(), res.map(|x| x.1).unwrap_or_else(|| "witness point is outside the fill".into()));
+        at("C04-tight-curve-uncovered", "region:uncovered:past-evolute", (2.5996601595717213, -0.12003054839953275), [6.751305898077076, 2.0, 4.0, 2.0, 2.0, 0.06561294281056844],
+            cub((9.499634494534643, -8.126448073381853), (-1.488752582710184, 2.23534158027398), (3.157241217623344, -10.449444973548617), (4.853640694201115, 4.558338480440744), true), o);
+        at("C04-tight-curve-overreach", "region:overreach:regularized-cusp", (3.6976635443693144, 0.3134411868911364), [1.4824189817891884, 2.0, 4.0, 2.0, 2.0, 0.02177987061405037],
+            cub((-4.891905427624228, 4.668559868765865), (5.310064929314464, -3.476929891000487), (5.398067579781608, 4.4942493981818), (-5.026922418289281, -3.3018230051334863), false), o);
+        at("C04-cusp-tip-short", "region:uncovered:regularized-cusp", (97.63251517702321, -0.23636747138676206), [2.641168287167404, 2.0, 4.0, 2.0, 2.0, 0.017678796959989657],
+            cub((-0.05711805948388182, -3.4302413087626116), (199.8748688960256, 1.785177372608283), (27.698872612477857, -2.156844534475717), (27.0393911765674, -4.050032572791746), false), o);
+        at("C04-short-arm-tangent-mismatch", "region:uncovered:short-arm-tangent-mismatch", (1.6437865968322547, -2.1086731508489813), [10.0, 2.0, 4.0, 2.0, 2.0, 0.0017],
+            cub((1.6951992645032563, -2.091204299996441), (1.6949764177316848, -2.091208694175947), (9.855149038048495, -0.545197359770941), (41.779410760159024, -6.35659470420728), false), o);
+        at("C04-exact-cusp", "region:uncovered:exact-cusp", (-4.098747237573293, -3.044811972943113), [4.569130538947639, 2.0, 3.9578143732688287, 2.0, 2.0, 0.028255313886926862],
+            cub((-7.12468275121468, -9.842733580771599), (-3.5780006572324767, -0.06767752923288128), (-10.325368753033725, -6.469049532870974), (-0.37731465541343034, -3.441361577133506), false), o);
     }
     // the collinear cubic A,B,A,B named in DESIGN.md section 5 (#8): random instances, counted only
     let (mut nan, tot) = (0, if thorough { 2000 } else { 200 });
